@@ -4,7 +4,8 @@ pub mod xmlchar;
 
 use nom::branch::alt;
 use nom::bytes::complete::tag;
-use nom::combinator::map;
+use nom::character::complete::satisfy;
+use nom::combinator::{map, opt, recognize};
 use nom::sequence::{preceded, tuple};
 use nom::IResult;
 
@@ -12,8 +13,10 @@ use nom::IResult;
 ///
 /// [\[4\] NCName](https://www.w3.org/TR/2009/REC-xml-names-20091208/#NT-NCName)
 pub fn ncname(input: &str) -> IResult<&str, &str> {
-    // FIXME: not name
-    xmlchar::name_char_except1(":")(input)
+    recognize(tuple((
+        satisfy(|c| c != ':' && xmlchar::is_name_start_char(c)),
+        opt(xmlchar::name_char_except1(":")),
+    )))(input)
 }
 
 /// PrefixedName | UnprefixedName
